@@ -176,7 +176,9 @@ variable {ts : List Tok} {e : Ext} {s : BP α}
     slices of the token list between `c` and `c'` -/
 def BodySl (ts : List Tok) (c c' : Nat) (b : Body) : Prop :=
   ∃ j, c ≤ j ∧ j ≤ c' ∧ b.name = slice ts c j ∧
-    ∀ q, b.quantity = some q → ∃ a z, j ≤ a ∧ a ≤ z ∧ z ≤ c' ∧ q = slice ts a z ∧ q ≠ []
+    (∀ q, b.quantity = some q → ∃ a z, j ≤ a ∧ a ≤ z ∧ z ≤ c' ∧ q = slice ts a z ∧ q ≠ []) ∧
+    (∀ sp, b.close = some sp → ∃ ob cb z, j ≤ z ∧ z + 1 = c' ∧ ts[j]? = some ob ∧ ts[z]? = some cb ∧
+      sp = ⟨ob.start, cb.stop⟩)
 
 theorem compBodyLong_slices (h : G ts e s) :
     Sat (compBodyLong (α := α)) s (fun r s' => G ts e s' ∧
@@ -196,7 +198,7 @@ theorem compBodyLong_slices (h : G ts e s) :
     cases r2 with
     | none => exact Sat.pure ⟨g2.setCur h.le, rfl⟩
     | some ob =>
-      obtain ⟨-, -, c2⟩ := h2
+      obtain ⟨hob, -, c2⟩ := h2
       refine Sat.bind (Sat.mono (untilK_sat _ g2) ?_)
       rintro r3 s3 ⟨g3, h3⟩
       cases r3 with
@@ -204,17 +206,20 @@ theorem compBodyLong_slices (h : G ts e s) :
       | some q =>
         obtain ⟨c3, hq, ⟨t, ht, hk⟩, -⟩ := h3
         refine Sat.bind (Sat.mono (bump_sat g3 ht (by simpa using hk)) ?_)
-        rintro cb s4 ⟨-, g4, c4⟩
-        refine Sat.pure ⟨g4, by omega, s1.cur, c1, by omega, hname, ?_⟩
-        intro q' hq'
-        dsimp only at hq'
-        split at hq'
-        · rename_i hany
-          simp only [Option.some.injEq] at hq'
-          subst hq'
-          refine ⟨s2.cur, s3.cur, by omega, c3, by omega, hq, ?_⟩
-          intro h0; rw [h0] at hany; simp at hany
-        · cases hq'
+        rintro cb s4 ⟨rfl, g4, c4⟩
+        refine Sat.pure ⟨g4, by omega, s1.cur, c1, by omega, hname, ?_, ?_⟩
+        · intro q' hq'
+          dsimp only at hq'
+          split at hq'
+          · rename_i hany
+            simp only [Option.some.injEq] at hq'
+            subst hq'
+            refine ⟨s2.cur, s3.cur, by omega, c3, by omega, hq, ?_⟩
+            intro h0; rw [h0] at hany; simp at hany
+          · cases hq'
+        · intro sp hsp
+          simp only [Option.some.injEq] at hsp
+          exact ⟨ob, cb, s3.cur, by omega, by omega, hob, ht, hsp.symm⟩
 
 theorem compBodyShort_slices (h : G ts e s) :
     Sat (compBodyShort (α := α)) s (fun r s' => G ts e s' ∧
@@ -235,10 +240,11 @@ theorem compBodyShort_slices (h : G ts e s) :
       exact Sat.pure ⟨(g1.setEvs evs).setCur h.le, rfl⟩
     · exact Sat.pure ⟨g1.setCur h.le, rfl⟩
   · rename_i hne
-    refine Sat.pure ⟨g1, ?_, s1.cur, c1, Nat.le_refl _, htoks, ?_⟩
+    refine Sat.pure ⟨g1, ?_, s1.cur, c1, Nat.le_refl _, htoks, ?_, ?_⟩
     · apply slice_ne_nil_lt (ts := ts)
       rw [← htoks]; intro h0; rw [h0] at hne; simp at hne
     · intro q hq; cases hq
+    · intro sp hsp; cases hsp
 
 theorem compBody_slices (h : G ts e s) :
     Sat (compBody (α := α)) s (fun r s' => G ts e s' ∧
@@ -423,12 +429,11 @@ theorem spanOK_inside {ts : List Tok} (hw : WF ts) {c0 c4 : Nat} (h04 : c0 ≤ c
   show l.stop ≤ offAt ts c4
   omega
 
-/-- the common part: from the cut of a component to the data the tail lemmas need, on the state
-    restricted to the tokens of the component -/
-theorem cut_restrict {ts : List Tok} {e : Ext} {k : TK} {s s1 s2 s3 s4 : BP α} {mtoks : List Tok} {body : Body}
-    {note : Option Text} (hw : WF ts) (h : G ts e s) (hc : Cut k s mtoks body s1 s2 s3)
-    (hn : noteP s3 = (note, s4)) :
-    s.cur < s4.cur ∧ curOff s = offAt ts s.cur ∧ curOff s4 = offAt ts s4.cur ∧
+/-- the common part: from the cut of a component to the data the tail lemmas need, on a state `s4`
+    (same token list, cursor at or after the end of the body) restricted to the tokens of the component -/
+theorem cut_restrict' {ts : List Tok} {e : Ext} {k : TK} {s s1 s2 s3 s4 : BP α} {mtoks : List Tok} {body : Body}
+    (hw : WF ts) (h : G ts e s) (hc : Cut k s mtoks body s1 s2 s3) (g4 : G ts e s4) (c4 : s3.cur ≤ s4.cur) :
+    s.cur < s4.cur ∧ curOff s = offAt ts s.cur ∧ curOff s4 = offAt ts s4.cur ∧ G ts e s3 ∧
     ∃ (comp : List Tok) (w : List Char), comp = slice ts s.cur s4.cur ∧ w = comp.flatMap (·.text) ∧
       WFI (offAt ts s.cur) w comp ∧
       GE (TailInv (offAt ts s.cur) w s4.evs.toList) comp e { s4 with toks := comp, cur := comp.length } ∧
@@ -436,7 +441,8 @@ theorem cut_restrict {ts : List Tok} {e : Ext} {k : TK} {s s1 s2 s3 s4 : BP α} 
       (∀ q, body.quantity = some q → WFI (offAt ts s.cur) w q) ∧
       ModSeq (e.has Gen.EXT_INTERMEDIATE_PREPARATIONS) mtoks ∧
       RunIn (offAt ts s.cur) w (curOff s1) mtoks ∧
-      Boundary (offAt ts s.cur) w (curOff s1) := by
+      Boundary (offAt ts s.cur) w (curOff s1) ∧
+      (∀ sp, body.close = some sp → SpanOK (offAt ts s.cur) w sp ∧ curOff s2 ≤ sp.stop) := by
   obtain ⟨⟨t, h1⟩, h2, h3⟩ := hc
   have ge0 : GE (fun _ => True) ts e s := ⟨h, trivial⟩
   have a1 := Sat.of_run (consumeK_ge k ge0) h1
@@ -444,9 +450,7 @@ theorem cut_restrict {ts : List Tok} {e : Ext} {k : TK} {s s1 s2 s3 s4 : BP α} 
   have a2 := Sat.of_run (modifiersP_ev g1) h2
   obtain ⟨g2, c2, hm, hmt⟩ := a2
   have a3 := Sat.of_run (compBody_slices g2.g) h3
-  obtain ⟨g3, c3, j, hj1, hj2, hname, hqty⟩ := a3
-  have a4 := Sat.of_run (noteP_sat hw g3) hn
-  obtain ⟨g4, c4⟩ := a4
+  obtain ⟨g3, c3, j, hj1, hj2, hname, hqty, hclose⟩ := a3
   have hlt : s.cur < s4.cur := by omega
   have e0 : curOff s = offAt ts s.cur := by unfold curOff; rw [h.toks]
   have e1 : curOff s1 = offAt ts s1.cur := by unfold curOff; rw [g1.g.toks]
@@ -464,7 +468,7 @@ theorem cut_restrict {ts : List Tok} {e : Ext} {k : TK} {s s1 s2 s3 s4 : BP α} 
     have := runIn_sub hw (c0 := s.cur) (c4 := s4.cur) (i := s.cur) (j := s4.cur) (Nat.le_refl _) (by omega)
       (Nat.le_refl _)
     exact this
-  refine ⟨hlt, e0, e4, _, _, rfl, rfl, hrunC.wfi hne, ?_, ?_, ?_, hm, ?_, ?_⟩
+  refine ⟨hlt, e0, e4, g3, _, _, rfl, rfl, hrunC.wfi hne, ?_, ?_, ?_, hm, ?_, ?_, ?_⟩
   · exact ⟨⟨rfl, g4.ext, g4.panic, Nat.le_refl _⟩, ⟨[], by simp, by simp⟩⟩
   · rw [e2, hname]
     exact runIn_sub hw (by omega) hj1 (by omega)
@@ -476,6 +480,42 @@ theorem cut_restrict {ts : List Tok} {e : Ext} {k : TK} {s s1 s2 s3 s4 : BP α} 
   · rw [e1]
     exact (runIn_sub hw (c0 := s.cur) (c4 := s4.cur) (i := s1.cur) (j := s1.cur) (by omega) (Nat.le_refl _)
       (by omega)).start
+  · intro sp hsp
+    obtain ⟨ob, cb, z, hjz, hz, hob, hcb, rfl⟩ := hclose sp hsp
+    have hwfi : WFI (baseOff ts) (ts.flatMap (·.text)) ts := ⟨hw.ne, ⟨hw.run, Emb.self _ _⟩⟩
+    have eo : ob.start = offAt ts j := (hwfi.tokAt hob).1
+    have ec : cb.stop = offAt ts s3.cur := by rw [(hwfi.tokAt hcb).2, hz]
+    have hsub := runIn_sub hw (c0 := s.cur) (c4 := s4.cur) (i := j) (j := s3.cur) (by omega) hj2 c4
+    have hsp' := hsub.spanOK
+    rw [offAt_slice hj2] at hsp'
+    have hmono : offAt ts s2.cur ≤ offAt ts s3.cur := hwfi.offAt_mono (Nat.le_of_lt c3)
+    refine ⟨?_, ?_⟩
+    · show SpanOK _ _ ⟨ob.start, cb.stop⟩
+      rw [eo, ec]; exact hsp'
+    · show curOff s2 ≤ cb.stop
+      rw [e2, ec]; exact hmono
+
+theorem cut_restrict {ts : List Tok} {e : Ext} {k : TK} {s s1 s2 s3 s4 : BP α} {mtoks : List Tok} {body : Body}
+    {note : Option Text} (hw : WF ts) (h : G ts e s) (hc : Cut k s mtoks body s1 s2 s3)
+    (hn : noteP s3 = (note, s4)) :
+    s.cur < s4.cur ∧ curOff s = offAt ts s.cur ∧ curOff s4 = offAt ts s4.cur ∧
+    ∃ (comp : List Tok) (w : List Char), comp = slice ts s.cur s4.cur ∧ w = comp.flatMap (·.text) ∧
+      WFI (offAt ts s.cur) w comp ∧
+      GE (TailInv (offAt ts s.cur) w s4.evs.toList) comp e { s4 with toks := comp, cur := comp.length } ∧
+      RunIn (offAt ts s.cur) w (curOff s2) body.name ∧
+      (∀ q, body.quantity = some q → WFI (offAt ts s.cur) w q) ∧
+      ModSeq (e.has Gen.EXT_INTERMEDIATE_PREPARATIONS) mtoks ∧
+      RunIn (offAt ts s.cur) w (curOff s1) mtoks ∧
+      Boundary (offAt ts s.cur) w (curOff s1) := by
+  have hc' := hc
+  obtain ⟨⟨t, h1⟩, h2, h3⟩ := hc'
+  have ge0 : GE (fun _ => True) ts e s := ⟨h, trivial⟩
+  obtain ⟨g1, -, -, -⟩ := Sat.of_run (consumeK_ge k ge0) h1
+  obtain ⟨g2, -, -, -⟩ := Sat.of_run (modifiersP_ev g1) h2
+  obtain ⟨g3, -⟩ := Sat.of_run (compBody_slices g2.g) h3
+  obtain ⟨g4, c4⟩ := Sat.of_run (noteP_sat hw g3) hn
+  obtain ⟨a1, a2, a3, -, comp, w, b1, b2, b3, b4, b5, b6, b7, b8, b9, -⟩ := cut_restrict' hw h hc g4 c4
+  exact ⟨a1, a2, a3, comp, w, b1, b2, b3, b4, b5, b6, b7, b8, b9⟩
 
 theorem DiagEv.mono {p q : Span → Prop} (hpq : ∀ l, p l → q l) {x : Ev α} (h : DiagEv p x) : DiagEv q x := by
   cases x <;> first | exact fun l hl => hpq l (h l hl) | exact h
